@@ -335,6 +335,36 @@ func checkVerifyProtocol(c *Ctx) {
 	}
 	n := 0
 	inspectFn(fn, func(nd ast.Node) bool {
+		// expression form: acc = max(acc, src) / acc = min(acc, src) (either operand order)
+		if as, isA := nd.(*ast.AssignStmt); isA && as.Tok == token.ASSIGN && len(as.Lhs) == 1 && len(as.Rhs) == 1 {
+			lhsID, isID := as.Lhs[0].(*ast.Ident)
+			call, isC := ast.Unparen(as.Rhs[0]).(*ast.CallExpr)
+			if isID && isC && len(call.Args) == 2 && (p.Builtin(call) == "max" || p.Builtin(call) == "min") {
+				var src ast.Expr
+				for i, a := range call.Args {
+					if id, ok := ast.Unparen(a).(*ast.Ident); ok && p.Info.Uses[id] == p.Info.Uses[lhsID] {
+						src = call.Args[1-i]
+					}
+				}
+				if src != nil && family(src) != "" {
+					n++
+					op := token.GTR
+					if p.Builtin(call) == "min" {
+						op = token.LSS
+					}
+					a := accs[lhsID.Name]
+					if a == nil {
+						a = &acc{op: op, sources: map[string]bool{}}
+						accs[lhsID.Name] = a
+					}
+					if a.op != op {
+						c.Check("C09/verify/accumulator-direction/"+lhsID.Name, rule, as.Pos(), false, "accumulator updated in both directions")
+					}
+					a.sources[family(src)] = true
+				}
+			}
+			return true
+		}
 		ifs, ok := nd.(*ast.IfStmt)
 		if !ok || ifs.Else != nil || len(ifs.Body.List) != 1 {
 			return true
